@@ -22,6 +22,9 @@ type Loaded struct {
 	Eng  *eng.Engine
 	Sess *eng.Session
 	Ref  *sqlref.DB
+	// Aux is per-database state of a check (C01: the ChoiceCoster installed in Eng); it lives and dies
+	// with the Loaded value
+	Aux any
 }
 
 func Load(spec qgen.DBSpec) *Loaded {
@@ -103,11 +106,11 @@ type Case struct {
 
 // Witness is the replayable form of a case.
 type Witness struct {
-	SQL    string   `json:"sql"`
-	Tags   []string `json:"tags"`
-	DB     string   `json:"db"`
-	Layout string   `json:"layout"`
-	DDL    []string `json:"ddl"`
+	SQL    string      `json:"sql"`
+	Tags   []string    `json:"tags"`
+	DB     string      `json:"db"`
+	Layout string      `json:"layout"`
+	DDL    []string    `json:"ddl"`
 	Spec   qgen.DBSpec `json:"spec"`
 }
 
@@ -156,6 +159,25 @@ func Run(r *core.Run, cfg Config) {
 		}
 		l := Load(s)
 		loaded[k] = l
+		return l
+	}
+	// databases reached while minimising a failing case (rows removed) are cached separately and
+	// the cache is dropped when it grows: a tree with a frequent known finding minimises thousands
+	// of cases, and an engine per reduced database kept forever exhausted the machine's memory
+	minLoaded := map[string]*Loaded{}
+	getMin := func(s qgen.DBSpec) *Loaded {
+		k := s.Name()
+		if l, ok := loaded[k]; ok {
+			return l
+		}
+		if l, ok := minLoaded[k]; ok {
+			return l
+		}
+		if len(minLoaded) >= 64 {
+			minLoaded = map[string]*Loaded{}
+		}
+		l := Load(s)
+		minLoaded[k] = l
 		return l
 	}
 	r.Info("databases_single_slot", len(specsSingle))
@@ -210,7 +232,7 @@ func Run(r *core.Run, cfg Config) {
 				}
 				continue
 			}
-			mc, mf := Minimise(c, f, cfg.Oracle, single, get)
+			mc, mf := Minimise(c, f, cfg.Oracle, single, getMin)
 			subj := Subject(mc, mf)
 			if cfg.Subject != nil {
 				subj = cfg.Subject(mc, mf)
